@@ -23,7 +23,7 @@ def show_stmts(stmts, ind=0):
         elif k == "print":
             out.append(f"{pad}m.d.{st[1]} += Print(Format({st[2]!r}, {', '.join(G.show(a) for a in st[3])}))")
         elif k in ("assert", "assume"):
-            msg = "" if st[3] is None else f", Format({st[3]!r}, {', '.join(G.show(a) for a in st[4])})"
+            msg = "" if st[3] is None else f", {st[3]!r}" if st[4] is None else f", Format({st[3]!r}, {', '.join(G.show(a) for a in st[4])})"
             out.append(f"{pad}m.d.{st[1]} += {k.capitalize()}({G.show(st[2])}{msg})")
         elif k == "if":
             for i, (c, body) in enumerate(st[1]):
@@ -90,6 +90,8 @@ def _build_stmts(m, stmts, sigs):
             cls = Assert if k == "assert" else Assume
             if st[3] is None:
                 m.d[st[1]] += cls(G.build(st[2], sigs))
+            elif st[4] is None:
+                m.d[st[1]] += cls(G.build(st[2], sigs), st[3])            # a plain string: reproduced verbatim, braces included
             else:
                 m.d[st[1]] += cls(G.build(st[2], sigs), _fmt(st[3], st[4], sigs))
         elif k == "if":
